@@ -7,7 +7,7 @@ rm -rf "$W"; git -C /repo worktree add --detach "$W" HEAD -q || exit 2
 trap 'git -C /repo worktree remove --force "$W"' EXIT
 ids="$*"; [ -z "$ids" ] && ids=$(ls "$HERE/seeded" | grep -- '-m')
 for id in $ids; do
-  prop=${id%%-*}
+  prop=$(jq -r '.breaks // empty' "$HERE/seeded/$id/meta.json" 2>/dev/null); [ -z "$prop" ] && prop=${id%%-*}
   git -C "$W" checkout -q -- . && git -C "$W" apply "$HERE/seeded/$id/patch.diff" || { echo "$id APPLY-FAILED" >> sweep.out; continue; }
   out=$(cd "$HERE" && VERIF_REPO="$W" ./check "$prop" --tier quick 2>&1); rc=$?
   n=$(echo "$out" | grep -c '^VIOLATION')
